@@ -12,6 +12,7 @@ pub const PREFIXES: [&str; 3] = ["p", "q", "r"];
 pub const TEXTS: [&str; 17] = ["a]]]>b", "t", "x y", " ", "hello", "<&>", "é", "a]]>b", "  \n ", "1", "\"q'", "zz", "\u{1F600}", "a\rb", "]]", ">", "a long run of character data, long enough to cross the small-string and buffer sizes that short samples never reach; 0123456789 0123456789 0123456789 0123456789 0123456789 0123456789 <&> \u{1F600} end"];
 pub const ATTR_VALUES: [&str; 10] = ["v", "", "x y", "<&\">", "é", "w'w", "1", "long value here", " a1 ", "first  second"];
 pub const COMMENTS: [&str; 5] = ["c", " note ", "", "a-b", "<x>"];
+pub const XML_NS: &str = "http://www.w3.org/XML/1998/namespace";
 pub const PI_TARGETS: [&str; 3] = ["pi", "target", "x-y"];
 pub const PI_DATA: [&str; 4] = ["d", "a b", "x=\"1\"", "?"];
 
@@ -50,10 +51,15 @@ pub struct GenCfg {
     pub misc_pct: u32,
     pub text_pct: u32,
     pub xml_id_pct: u32,
+    /// share of elements that explicitly declare the built-in pair xmlns:xml="…/XML/1998/namespace"
+    /// (legal, never written on output, so only engines that allow for that switch it on)
+    pub xml_prefix_decl_pct: u32,
+    /// share of elements with 9-12 further declarations (prefixes d0..d11 in a shuffled order)
+    pub many_decls_pct: u32,
 }
 impl GenCfg {
     pub fn small() -> Self {
-        GenCfg { max_depth: 3, max_kids: 3, ns_pct: 35, attr_max: 2, misc_pct: 20, text_pct: 35, xml_id_pct: 10 }
+        GenCfg { max_depth: 3, max_kids: 3, ns_pct: 35, attr_max: 2, misc_pct: 20, text_pct: 35, xml_id_pct: 10, xml_prefix_decl_pct: 0, many_decls_pct: 0 }
     }
     pub fn swarm(rng: &mut Rng) -> Self {
         GenCfg {
@@ -64,6 +70,8 @@ impl GenCfg {
             misc_pct: *rng.pick(&[0, 15, 40]),
             text_pct: *rng.pick(&[10, 35, 60]),
             xml_id_pct: *rng.pick(&[0, 10, 30]),
+            xml_prefix_decl_pct: 0,
+            many_decls_pct: *rng.pick(&[0u32, 0, 0, 3, 10]),
         }
     }
 }
@@ -132,6 +140,22 @@ pub fn gen_elem(rng: &mut Rng, cfg: &GenCfg, scope: &Scope, depth: usize, ids: &
             decls.push((prefix.clone(), uri.clone()));
             scope.push((prefix, uri));
         }
+    }
+    if cfg.many_decls_pct > 0 && rng.pct(cfg.many_decls_pct) {
+        let mut idx: Vec<usize> = (0..12).collect();
+        for i in (1..idx.len()).rev() {
+            let j = rng.below(i + 1);
+            idx.swap(i, j);
+        }
+        for i in idx.into_iter().take(rng.range(9, 12)) {
+            let prefix = format!("d{}", i);
+            let uri = if rng.pct(50) { rng.pick(&URIS).to_string() } else { format!("urn:d{}", i) };
+            decls.push((prefix.clone(), uri.clone()));
+            scope.push((prefix, uri));
+        }
+    }
+    if cfg.xml_prefix_decl_pct > 0 && rng.pct(cfg.xml_prefix_decl_pct) {
+        decls.push(("xml".to_string(), XML_NS.to_string()));
     }
     // element name
     let mut uri = "".to_string();
@@ -506,5 +530,60 @@ pub fn shrink_candidates(d: &ADoc) -> Vec<ADoc> {
         out.push(c);
     }
     out
+}
+
+
+// ------------------------------------------------------------------ conversion to xot::fixed
+
+pub fn fx_name(n: &Nm) -> xot::fixed::Name {
+    xot::fixed::Name { namespace: n.uri.clone(), localname: n.local.clone() }
+}
+/// `split`: asked per text node; `true` = write it as two adjacent `Content::Text` entries (the
+/// store has to consolidate them, as it does for pieces that are appended one by one)
+pub fn fx_elem(e: &AElem, split: &mut dyn FnMut() -> bool) -> xot::fixed::Element {
+    let mut children = vec![];
+    for k in &e.kids {
+        match k {
+            AContent::Elem(e) => children.push(xot::fixed::Content::Element(fx_elem(e, split))),
+            AContent::Text(t) => {
+                let chars: Vec<char> = t.chars().collect();
+                if chars.len() >= 2 && split() {
+                    let mid = chars.len() / 2;
+                    children.push(xot::fixed::Content::Text(chars[..mid].iter().collect()));
+                    children.push(xot::fixed::Content::Text(chars[mid..].iter().collect()));
+                } else {
+                    children.push(xot::fixed::Content::Text(t.clone()));
+                }
+            }
+            AContent::Comment(t) => children.push(xot::fixed::Content::Comment(t.clone())),
+            AContent::PI(t, d) => children.push(xot::fixed::Content::ProcessingInstruction(xot::fixed::ProcessingInstruction {
+                target: t.clone(),
+                content: d.clone(),
+            })),
+        }
+    }
+    xot::fixed::Element {
+        name: fx_name(&e.name),
+        prefixes: e.decls.iter().map(|(p, u)| xot::fixed::Prefix { name: p.clone(), namespace: u.clone() }).collect(),
+        attributes: e.attrs.iter().map(|(n, _, val)| (fx_name(n), val.clone())).collect(),
+        children,
+    }
+}
+pub fn fx_misc(c: &AContent) -> xot::fixed::DocumentContent {
+    match c {
+        AContent::Comment(t) => xot::fixed::DocumentContent::Comment(t.clone()),
+        AContent::PI(t, d) => xot::fixed::DocumentContent::ProcessingInstruction(xot::fixed::ProcessingInstruction {
+            target: t.clone(),
+            content: d.clone(),
+        }),
+        _ => unreachable!(),
+    }
+}
+pub fn fx_doc(d: &ADoc, split: &mut dyn FnMut() -> bool) -> xot::fixed::Document {
+    xot::fixed::Document {
+        before: d.before.iter().map(fx_misc).collect(),
+        document_element: fx_elem(&d.root, split),
+        after: d.after.iter().map(fx_misc).collect(),
+    }
 }
 
